@@ -133,7 +133,8 @@ SortedWalk(rem, calls, out, i, full) ==
 F_sorted(a, e) ==
   LET n == Len(e.out)
       \* direction of every step
-      calls == IF e.mode \in {"pop_calls", "iter"} THEN e.calls
+      calls == IF e.mode = "iter" /\ e.kind = "pq" THEN [i \in 1..n |-> 1]      \* PriorityQueue: forward = maximum first
+               ELSE IF e.mode \in {"pop_calls", "iter"} THEN e.calls
                ELSE IF e.mode \in {"pop", "vec", "pop_max", "desc_vec"} THEN [i \in 1..n |-> 1]
                ELSE [i \in 1..n |-> 0]
       full == e.mode \notin {"vec", "asc_vec", "desc_vec"}
